@@ -35,6 +35,59 @@ pub enum Edit {
     FreezeClone,
 }
 
+/// a paused parameter (tracked(), then stop_tracking()) used directly or through a clone:
+/// identical (no graph, no gradient); and the prediction returned by `Model::forward` is
+/// interchangeable with the output the model keeps: a loss built from the returned handle
+/// deposits the same parameter gradients
+pub fn paused_and_returned<S: Source>(s: &mut S) {
+    use corgi::layer::dense::Dense;
+    use corgi::layer::Layer;
+    use corgi::model::Model;
+    use corgi::optimizer::gd::GradientDescent;
+    let p = mk(s, &[2], Dom::D4).tracked();
+    let k = mk(s, &[2], Dom::D4);
+    p.stop_tracking();
+    let direct = &p * &k;
+    let through_clone = &p.clone() * &k;
+    through_clone.backward(None);
+    direct.backward(None);
+    chk!(p.gradient().is_none(), "[c12:clone-operand] replacing a paused operand by its clone deposited a gradient on it");
+    forget((direct, through_clone));
+    // --- the handle returned by Model::forward
+    let init = crate::cases::c15::initializer(s.vals(2, Dom::D2));
+    let mut layer = Dense::new(1, 1, &init, None);
+    let gd = GradientDescent::new(0.5);
+    let costf: corgi::cost::CostFunction = Box::new(|o: &Array, t: &Array| o * t);
+    let x = mk(s, &[1, 1], Dom::D2);
+    let t = mk(s, &[1, 1], Dom::D4);
+    {
+        let mut model = Model::new(vec![&mut layer], &gd, &costf);
+        let y = model.forward(x.clone());
+        let e = &y * &t;
+        e.backward(None);
+        forget((model, y, e));
+    }
+    // d(w*x + b)*t: dw = x*t, db = t
+    let ps = layer.parameters();
+    let gw = ps[0].gradient();
+    let gb = ps[1].gradient();
+    chk!(gw.is_some() && gb.is_some(), "[c12:returned-handle] a loss built from the prediction Model::forward returned deposited no gradients");
+    if let (Some(gw), Some(gb)) = (gw.as_ref(), gb.as_ref()) {
+        chk!(gw.values()[0] == x.values()[0] * t.values()[0], "[grad:value] gradient element differs from the seed-weighted sum of partial derivatives");
+        chk!(gb.values()[0] == t.values()[0], "[grad:value] gradient element differs from the seed-weighted sum of partial derivatives");
+    }
+    witness();
+    std::mem::forget(gw);
+    std::mem::forget(gb);
+    forget((p, k, x, t));
+    forget((init, costf));
+}
+
+#[allow(dead_code)]
+enum _Unused {
+    A,
+}
+
 fn reference(ra: &T, rb: &T) -> T {
     use crate::alg::Alg;
     ra.mul(rb).add(ra).mul(rb)
